@@ -1,46 +1,46 @@
 /- REGENERATED from /repo on every run by /verif/harness/cmd/extract — do not edit. -/
 namespace Ibx.Gen.Hub
 
-/-- const opChanLen in pkg/msghub/hub.go (capacity of the hub's operation queue) -/
+/-- capacity (literal or constant) of the make(chan func(…), N) that initialises the Hub's operation queue — the Hub field of type chan func(…) — in pkg/msghub/hub.go -/
 def opChanLen : Option Nat := some 100
 
-/-- does (*Hub).Start contain close(hub.opChan)?  (a late Dispatch would then panic) -/
+/-- does (*Hub).Start, or a same-file function it calls, close the operation queue?  (a late Dispatch would then panic) -/
 def startClosesOpChan : Option Bool := some false
 
-/-- capacity literal of the make(chan …, N) assigned to field c in newMsgListenerV1 -/
+/-- capacity of the make(chan …, N) that initialises the event queue (the channel field that is sent on) of the listener type (the one with methods Receive and Delete) of pkg/rest/socketv1_controller.go -/
 def chanCapV1 : Option Nat := some 100
 
-/-- capacity literal of the make(chan …, N) assigned to field c in newMsgListenerV2 -/
+/-- capacity of the make(chan …, N) that initialises the event queue (the channel field that is sent on) of the listener type (the one with methods Receive and Delete) of pkg/rest/socketv2_controller.go -/
 def chanCapV2 : Option Nat := some 100
 
-/-- shape of (*msgListenerV1).Close: selectOnDataChan = tests `already closed` by receiving from the event queue; doneChan = sync.Once-guarded close of a separate done channel + RemoveListener, event queue never closed -/
+/-- shape of Close of the listener type (the one with methods Receive and Delete) of pkg/rest/socketv1_controller.go: selectOnDataChan = tests `already closed` by receiving from the event queue; doneChan = sync.Once-guarded close of a separate chan struct{} field + <hub field>.RemoveListener(itself), event queue never closed -/
 def wsCloseV1 : String := "doneChan"
 
-/-- shape of (*msgListenerV2).Close: selectOnDataChan = tests `already closed` by receiving from the event queue; doneChan = sync.Once-guarded close of a separate done channel + RemoveListener, event queue never closed -/
+/-- shape of Close of the listener type (the one with methods Receive and Delete) of pkg/rest/socketv2_controller.go: selectOnDataChan = tests `already closed` by receiving from the event queue; doneChan = sync.Once-guarded close of a separate chan struct{} field + <hub field>.RemoveListener(itself), event queue never closed -/
 def wsCloseV2 : String := "doneChan"
 
-/-- all sends on the event queue in pkg/rest/socketv1_controller.go: nonBlockingSend = each is a select comm with a default clause; blockingSend = at least one plain send statement -/
+/-- all send statements in pkg/rest/socketv1_controller.go: nonBlockingSend = each is on the event queue and is a select comm with a default clause; blockingSend = at least one is a plain statement or in a select without default -/
 def wsReceiveV1 : String := "nonBlockingSend"
 
-/-- all sends on the event queue in pkg/rest/socketv2_controller.go: nonBlockingSend = each is a select comm with a default clause; blockingSend = at least one plain send statement -/
+/-- all send statements in pkg/rest/socketv2_controller.go: nonBlockingSend = each is on the event queue and is a select comm with a default clause; blockingSend = at least one is a plain statement or in a select without default -/
 def wsReceiveV2 : String := "nonBlockingSend"
 
-/-- any close(<x>.c) in pkg/rest/socketv1_controller.go -/
+/-- any close(<x>.<event queue>) in pkg/rest/socketv1_controller.go -/
 def closesDataChanV1 : Option Bool := some false
 
-/-- any close(<x>.c) in pkg/rest/socketv2_controller.go -/
+/-- any close(<x>.<event queue>) in pkg/rest/socketv2_controller.go -/
 def closesDataChanV2 : Option Bool := some false
 
-/-- (*msgListenerV1).WSWriter selects on a receive from <recv>.done -/
+/-- WSWriter (or a same-file function it calls) of the listener type (the one with methods Receive and Delete) of pkg/rest/socketv1_controller.go selects on a receive from the done channel (the chan struct{} field the file closes) -/
 def writerSelectsDoneV1 : Option Bool := some true
 
-/-- (*msgListenerV2).WSWriter selects on a receive from <recv>.done -/
+/-- WSWriter (or a same-file function it calls) of the listener type (the one with methods Receive and Delete) of pkg/rest/socketv2_controller.go selects on a receive from the done channel (the chan struct{} field the file closes) -/
 def writerSelectsDoneV2 : Option Bool := some true
 
-/-- Receive, Delete or a same-receiver helper they call mention <recv>.hub (they run on the hub goroutine: calling the hub from there would self-deadlock) -/
+/-- Receive, Delete or a same-file function they (transitively) call mention the field of type *msghub.Hub (they run on the hub goroutine: calling the hub from there would self-deadlock) -/
 def receiveCallsHubV1 : Option Bool := some false
 
-/-- Receive, Delete or a same-receiver helper they call mention <recv>.hub (they run on the hub goroutine: calling the hub from there would self-deadlock) -/
+/-- Receive, Delete or a same-file function they (transitively) call mention the field of type *msghub.Hub (they run on the hub goroutine: calling the hub from there would self-deadlock) -/
 def receiveCallsHubV2 : Option Bool := some false
 
 end Ibx.Gen.Hub
